@@ -1,11 +1,27 @@
 /-
   C15 — Bundled plugins preserve client behaviour apart from their documented change.
 
+  "For every input and every subset of the bundled plugins, the package still loads and each method
+   sends the same request and accepts the same responses as without plugins. ShorterResults changes
+   only the return value to exactly the single top-level field of the unplugged result,
+   ExtractOperations moves the identical operation strings to a module the client imports,
+   ClientForwardRefs defers imports without changing any annotation's meaning, NoReimports only empties
+   __init__; a plugin overriding no hook changes no byte, and several plugins are applied to each hook
+   in configuration order."
+
   Statements and final proofs.  Models: Model/Plugins.lean (plugin manager + the four bundled
-  plugins), Model/PluginPipeline.lean (hook call sites), Model/ClientSem.lean (what a generated
-  method does), Model/PluginFindings.lean (finding triggers); lemmas: Proofs/C15.lean.
+  plugins on the Python-AST fragment Model/PyIR.lean), Model/PluginPipeline.lean (hook call sites of
+  client.py / init_file.py), Model/ClientSem.lean (shape and denotation of a generated method),
+  Model/PluginFindings.lean (finding triggers).  Lemmas: Proofs/C15.lean.
+
+  Quantification: every hook call, every payload, every plugin list (any length, any order, any
+  plugin state), every method of the shape client.py emits (`bodyOf s` for every `Shape`), every
+  class dictionary, every response.  The whole-pipeline statement `C15_full` is false on the pinned
+  tree (five witnesses, §7); `C15_partial` is what is proved of it, the per-plugin theorems of §3–§6
+  hold without any restriction on the plugin list.
 -/
 import AriadneModel.Proofs.C15
+import AriadneModel.Generated.Tables
 
 set_option linter.unusedSimpArgs false
 set_option linter.unusedVariables false
@@ -13,7 +29,7 @@ set_option linter.unusedVariables false
 namespace Ariadne.C15
 open Ariadne Ariadne.Py Ariadne.Plugins Ariadne.ClientSem
 
-/-! ## 1. The plugin manager: hooks in configuration order (all plugin lists, all hooks, any state type) -/
+/-! ## 1. The plugin manager: hooks in configuration order (all lists, all hooks, any state type) -/
 
 /-- `_apply_plugins_on_object` on `p :: ps` = the hook of `p` first, then the rest of the list on
     what `p` returned (and every plugin keeps the state its own hook produced). -/
@@ -32,5 +48,563 @@ theorem hooks_in_order_append {σ : Type} (step : Call → σ → Payload → M 
     applyAll step c (ps ++ qs) x =
       (applyAll step c ps x >>= fun r => applyAll step c qs r.2 >>= fun r' => pure (r.1 ++ r'.1, r'.2)) :=
   applyAll_append step c ps qs x
+
+/-! ## 2. A plugin overriding no hook changes nothing -/
+
+/-- alone, for every hook and every object -/
+theorem identity_plugin_noop (c : Call) (x : Payload) : manager c [.identity] x = pure ([.identity], x) := rfl
+
+/-- anywhere in any list of plugins (any state type): the other plugins see and return exactly
+    what they see and return without it, for every hook -/
+theorem identity_plugin_noop_anywhere {σ : Type} (step : Call → σ → Payload → M (σ × Payload)) (idp : σ)
+    (hid : ∀ c x, step c idp x = .ok (idp, x)) (c : Call) (a b : List σ) (x : Payload) :
+    applyAll step c (a ++ idp :: b) x =
+      (applyAll step c a x >>= fun ra => applyAll step c b ra.2 >>= fun rb => pure (ra.1 ++ idp :: rb.1, rb.2)) ∧
+    applyAll step c (a ++ b) x =
+      (applyAll step c a x >>= fun ra => applyAll step c b ra.2 >>= fun rb => pure (ra.1 ++ rb.1, rb.2)) :=
+  ⟨applyAll_insert step idp hid c a b x, applyAll_append step c a b x⟩
+
+/-- a whole generation: with the identity plugin inserted anywhere among any bundled plugins, every
+    hook call is handed and returns the same objects (so every emitted file has the same bytes), and
+    the generation fails iff it failed without it, with the same exception -/
+theorem identity_plugin_noop_pipeline (a b : List PState) (evs : List Event) :
+    (runPipeline { plugins := a ++ .identity :: b } evs).1.trace = (runPipeline { plugins := a ++ b } evs).1.trace ∧
+    (runPipeline { plugins := a ++ .identity :: b } evs).2 = (runPipeline { plugins := a ++ b } evs).2 := by
+  have h := runPipeline_rel evs { plugins := a ++ .identity :: b } { plugins := a ++ b }
+    ⟨⟨a, b, rfl, rfl⟩, rfl, rfl, rfl, rfl, rfl, rfl⟩
+  exact ⟨h.2.2.2.2.2.2.2, h.1⟩
+
+/-! ## 3. ShorterResults is exactly the projection on the single top-level field -/
+
+/-- "the result class has exactly one field `f`" as the plugin decides it: the class is known, the
+    fields collected through the recorded base classes (fragments included) are exactly one
+    `f: <ann>`, and the annotation unwraps to `node` -/
+theorem shorter_single_field_iff (dict : List (String × ClassDef)) (cls : String) (node : Ex) (classes : List String)
+    (f : String) :
+    nodeAndClass dict cls = .ok (some (node, classes, f)) ↔
+      ∃ cd ann, alookup cls dict = some cd ∧
+        getAllFields dict (dict.length + 1) cd = .ok [(.name f, ann)] ∧
+        updateNode (ann.size + 1) ann = .ok (node, classes) :=
+  nodeAndClass_some dict cls node classes f
+
+/-- query / mutation methods of the shape client.py emits (async or sync), any plugin state:
+    single field `f` ⇒ the method becomes the same body with `.f` behind `model_validate` and the
+    unwrapped annotation; otherwise the method is returned unchanged; an exception of the lookup
+    (`RecursionError` on cyclic bases, unmodelled literal) propagates. -/
+theorem shorter_is_projection_method (st : ShorterState) (m : Method) (s : Shape) (aw : Bool) (r d cls : String)
+    (hb : m.body = bodyOf s) (ht : s.tail = .call aw r d) (hr : m.returns = some (.name cls)) :
+    shorterModifyMethod st m =
+      (nodeAndClass st.classDict cls >>= fun x =>
+        match x with
+        | none => pure (st, m)
+        | some (node, classes, f) =>
+          pure (shorterUpdateImports st m.name classes,
+            { m with returns := some node, body := bodyOf (shorterShape s f) })) :=
+  shorter_call st m s aw r d cls hb ht hr
+
+/-- subscriptions: `yield C.model_validate(data).f`, `AsyncIterator[<unwrapped>]` -/
+theorem shorter_is_projection_subscription (st : ShorterState) (m : Method) (s : Shape) (d cls : String) (o : Nat) (a : Ex)
+    (hb : m.body = bodyOf s) (ht : s.tail = .sub d true o) (hr : m.returns = some (.sub a (.name cls))) :
+    shorterModifyMethod st m =
+      (nodeAndClass st.classDict cls >>= fun x =>
+        match x with
+        | none => pure (st, m)
+        | some (node, classes, f) =>
+          pure (shorterUpdateImports st m.name classes,
+            { m with returns := some (.sub (.name "AsyncIterator") node), body := bodyOf (shorterShape s f) })) :=
+  shorter_sub st m s d cls o a hb ht hr
+
+/-- the denotation: the rewritten method sends the same request and returns `getattr f` of what the
+    original returns — same acceptance, same rejection (`sem (SR m) = (req m, proj f ∘ ret m)`), in
+    every package, for every response, whatever pydantic and `getattr` are -/
+theorem shorter_is_projection {PyV : Type} (validate : String × String → J → Except String PyV)
+    (getattr : String → PyV → PyV) (pkg : Pkg) (s : Shape) (f : String) :
+    (sem validate getattr pkg (shorterShape s f)).1 = (sem validate getattr pkg s).1 ∧
+    ∀ d, (sem validate getattr pkg (shorterShape s f)).2 d = ((sem validate getattr pkg s).2 d).map (getattr f) :=
+  ⟨request_shorterShape pkg s f, fun d => respond_shorterShape validate getattr pkg s f d⟩
+
+/-- "unchanged otherwise", the part that depends on the annotation: a return annotation that is not
+    a plain class name is never touched -/
+theorem shorter_unchanged_without_class_annotation (st : ShorterState) (m : Method) (s : Shape) (aw : Bool) (r d : String)
+    (hb : m.body = bodyOf s) (ht : s.tail = .call aw r d) (hr : ∀ id, m.returns ≠ some (.name id)) :
+    shorterModifyMethod st m = pure (st, m) :=
+  shorter_skips_non_name st m s aw r d hb ht hr
+
+/-! ## 4. ExtractOperations: the same strings, in a module the client imports -/
+
+/-- bookkeeping of `generate_operation_str`: the string is stored under the operation name and the
+    constant is `<SNAKE>_GQL`; the string itself is returned unchanged -/
+theorem extract_records_string (st : ExtractState) (c : Call) (s op snake : String)
+    (hn : c.opName = some op) (hs : c.opSnake = some snake) :
+    extractStep { c with hook := "generate_operation_str" } st (.str s) =
+      .ok ({ st with gqls := aset op s st.gqls, vars := aset op (gqlVarName snake) st.vars }, .str s) := by
+  simp [extractStep, extract_opStr st { c with hook := "generate_operation_str" } s op snake hn hs, bind_ok, pure_eq_ok]
+
+/-- each method references its own constant, and nothing else of the method changes -/
+theorem extract_method_references_own_constant (st : ExtractState) (c : Call) (m : Method) (s : Shape) (q : String)
+    (ls : List String) (op v : String)
+    (hb : m.body = bodyOf s) (hi : s.imports = []) (ho : s.op = .inline q ls)
+    (hn : c.opName = some op) (hv : alookup op st.vars = some v)
+    (hk : match s.tail with
+          | .call aw _ _ => c.opKind ≠ some "subscription" ∧ st.asyncClient = aw
+          | .sub _ _ _ => c.opKind = some "subscription") :
+    extractClientMethod st c m = .ok { m with body := bodyOf { s with op := .const v } } :=
+  extract_method st c m s q ls op v hb hi ho hn hv hk
+
+/-- the written module binds the constant of every recorded operation to exactly
+    `[l + "\n" for l in operation_str.splitlines()]` — the expression client.py inlines -/
+theorem extract_module_binds_same_lines (st : ExtractState) (f : OpsFile) (h : extractOpsFile st = .ok f)
+    (op g : String) (hg : (op, g) ∈ st.gqls) :
+    ∃ v, alookup op st.vars = some v ∧ (v, pyLines g) ∈ f.assigns :=
+  extract_opsFile_binds st f h op g hg
+
+/-- `extract_same_strings`: a method whose inlined lines are the lines of the recorded string
+    (what `_generate_operation_str_assign` builds) sends, after extraction, the identical query text,
+    operation name and variables — provided the client module binds `gql` before and imports the
+    constant from the written module after (both are what `generate_client_module` arranges) -/
+theorem extract_same_strings (pkgU pkgP : Pkg) (s : Shape) (q g v opsName : String) (f : OpsFile)
+    (ho : s.op = .inline q (pyLines g))
+    (hgql : (moduleNames pkgU.client).contains "gql" = true)
+    (hops : pkgP.ops = some (opsName, f))
+    (himp : resolveRuntime pkgP { s with op := .const v } v = some ("." ++ opsName, v))
+    (hbind : alookup v f.assigns = some (pyLines g)) :
+    request pkgP { s with op := .const v } = request pkgU s := by
+  have hg : "gql" ∈ moduleNames pkgU.client := by simpa using hgql
+  unfold request constValue
+  simp [ho, hg, hops, himp, hbind]
+
+/-! ## 5. ClientForwardRefs: every call-time name stays bound, every annotation keeps its meaning -/
+
+/-- the validated class is imported at the top of the body from the module recorded for it, the
+    rest of the body is untouched (methods with at most one projection, i.e. also after
+    ShorterResults) -/
+theorem forwardrefs_imports_in_body (st : FwdState) (m : Method) (s : Shape) (src : String)
+    (hb : m.body = bodyOf s) (hp : s.proj.length ≤ 1) (hc : alookup s.retClass st.importedClasses = some src) :
+    fwdMethod st m = .ok
+      ({ st with inputAndReturnTypes := (fwdSignature st m).2.2,
+                 importedInMethod := sadd s.retClass st.importedInMethod },
+       { m with args := (fwdSignature st m).1, returns := (fwdSignature st m).2.1,
+                body := bodyOf (withImport s { module := some src, names := [(s.retClass, none)], level := 0 }) }) :=
+  fwd_method st m s src hb hp hc
+
+/-- `forwardrefs_runtime_names`: in the rewritten method the validated class resolves — through the
+    in-body import — to (the dotted module text recorded by `_store_imported_classes`, the class):
+    the qualified name the removed module-level `from .<module> import <class>` denoted.  (With the
+    import levels of the code before commit 0603080 the module text would carry one dot too many.) -/
+theorem forwardrefs_runtime_names (pkg : Pkg) (s : Shape) (src : String) :
+    resolveRuntime pkg (withImport s { module := some src, names := [(s.retClass, none)], level := 0 }) s.retClass =
+      some (src, s.retClass) := by
+  simp [resolveRuntime, withImport, importBindings, alookup, dotted]
+
+/-- the request of the rewritten method is the request of the original one -/
+theorem forwardrefs_same_request (pkg : Pkg) (s : Shape) (i : ImportFrom) (hop : ∀ c, s.op ≠ .const c) :
+    request pkg (withImport s i) = request pkg s := by
+  unfold request withImport
+  cases h : s.op with
+  | inline q ls => rfl
+  | const c => exact absurd h (hop c)
+
+/-- annotations: the rewritten annotation is the original with some names quoted … -/
+theorem forwardrefs_annotations_same_text (classes : List (String × String)) (e : Ex) (s : List String) :
+    unconst (toConst classes e s).1 = unconst e :=
+  toConst_unconst classes e s
+
+/-- … only locally imported classes are quoted … -/
+theorem forwardrefs_quotes_only_imported (classes : List (String × String)) (e : Ex) (s : List String) (n : String)
+    (h : n ∈ (toConst classes e s).2) : n ∈ s ∨ ahas n classes = true :=
+  toConst_set classes e s n h
+
+/-- … and every quoted class is imported under `if TYPE_CHECKING:` from the module recorded for it -/
+theorem forwardrefs_typechecking_imports (st : FwdState) (groups : List (String × List String))
+    (h : fwdTypeCheckingImports st = .ok groups) (cls : String) (hc : cls ∈ st.inputAndReturnTypes) :
+    ∃ src names, alookup cls st.importedClasses = some src ∧ alookup src groups = some names ∧ cls ∈ names :=
+  fwd_typechecking_complete st groups h cls hc
+
+/-- a validated "class" that no local import provides kills the generation (finding C15-F5) -/
+theorem forwardrefs_keyerror (st : FwdState) (m : Method) (last : Stmt) (cls : String)
+    (hl : m.body.getLast? = some last) (hi : fwdImportClass last = some cls)
+    (hc : alookup cls st.importedClasses = none) : fwdMethod st m = .error "KeyError" :=
+  fwd_method_keyerror st m last cls hl hi hc
+
+/-! ## 6. NoReimports only empties `__init__` -/
+
+/-- every other hook returns its argument -/
+theorem noreimports_other_hooks_identity (c : Call) (x : Payload) (h : c.hook ≠ "generate_init_module") :
+    PState.step c .noReimports x = .ok (.noReimports, x) := by
+  simp [PState.step, noReimports_other_hooks c x h, pure_eq_ok]
+
+/-- `noreimports_only_init`: wherever NoReimports stands in the list, the init module that leaves the
+    plugin manager is empty (no later bundled plugin puts anything back) -/
+theorem noreimports_only_init (c : Call) (hc : c.hook = "generate_init_module") (a b l : List PState) (m : Module) (y : Payload)
+    (h : manager c (a ++ .noReimports :: b) (.module m) = .ok (l, y)) : y = .module { body := [] } := by
+  unfold manager at h
+  rw [applyAll_append] at h
+  cases ha : applyAll PState.step c a (.module m) with
+  | error e => rw [ha] at h; cases h
+  | ok ra =>
+    rw [ha] at h
+    simp only [bind_ok] at h
+    rw [applyAll_cons] at h
+    have hN : PState.step c .noReimports ra.2 = .ok (.noReimports, noReimportsStep c ra.2) := rfl
+    rw [hN] at h
+    simp only [bind_ok] at h
+    obtain ⟨m', hm'⟩ := applyAll_keeps_module c a ra.1 m ra.2 (by rw [ha])
+    have hemp : noReimportsStep c ra.2 = .module { body := [] } := by rw [hm']; simp [noReimportsStep, hc]
+    rw [hemp] at h
+    cases hb : applyAll PState.step c b (.module { body := [] }) with
+    | error e => rw [hb] at h; cases h
+    | ok rb =>
+      rw [hb] at h
+      simp only [bind_ok, pure_eq_ok, Except.ok.injEq, Prod.mk.injEq] at h
+      rw [← h.2]
+      exact empty_init_through_list c hc b rb.1 rb.2 hb
+
+
+/-! ## 7. Configuration order matters for exactly one pair (finding C15-F3) -/
+
+/-- `[ClientForwardRefs, ShorterResults]`: what ClientForwardRefs leaves of a method (return
+    annotation quoted) is skipped by ShorterResults whatever the result class looks like — the
+    documented shortening silently does not happen, while `[ShorterResults, ClientForwardRefs]`
+    shortens (§3) and then defers the imports (§5, `proj.length ≤ 1`). -/
+theorem shorter_after_forwardrefs_noop (stF : FwdState) (stS : ShorterState) (m : Method) (s : Shape) (aw : Bool)
+    (r d cls src : String)
+    (hb : m.body = bodyOf s) (ht : s.tail = .call aw r d) (hp : s.proj.length ≤ 1)
+    (hr : m.returns = some (.name cls)) (hcls : ahas cls stF.importedClasses = true)
+    (hc : alookup s.retClass stF.importedClasses = some src) :
+    ∃ stF' m', fwdMethod stF m = .ok (stF', m') ∧ shorterModifyMethod stS m' = .ok (stS, m') :=
+  shorter_after_fwd_method stF stS m s aw r d cls src hb ht hp hr hcls hc
+
+/-! ## 8. The model reacts to exactly the hooks the source overrides (regenerated tables) -/
+
+/-- split a comma separated table entry -/
+def splitCommaAux : List Char → List Char → List String
+  | [], cur => [String.ofList cur.reverse]
+  | c :: rest, cur => if c == ',' then String.ofList cur.reverse :: splitCommaAux rest [] else splitCommaAux rest (c :: cur)
+
+def splitComma (s : String) : List String := if s == "" then [] else splitCommaAux s.toList []
+
+def overridesOf (plugin : String) : List String :=
+  match Ariadne.Tables.pluginOverrides.find? (fun kv => kv.1 == plugin) with
+  | some kv => splitComma kv.2
+  | none => []
+
+theorem table_noreimports_overrides : overridesOf "NoReimportsPlugin" = ["generate_init_module"] := by decide +kernel
+theorem table_forwardrefs_overrides : overridesOf "ClientForwardRefsPlugin" = ["generate_client_module"] := by decide +kernel
+theorem table_extract_overrides : overridesOf "ExtractOperationsPlugin" =
+    ["generate_client_method", "generate_client_module", "generate_init_module", "generate_operation_str"] := by decide +kernel
+theorem table_shorter_overrides : overridesOf "ShorterResultsPlugin" =
+    ["generate_client_module", "generate_fragments_module", "generate_result_class", "generate_result_types_module"] := by decide +kernel
+/-- every overridden hook is a hook of `plugins.base.Plugin` -/
+theorem table_overrides_are_hooks :
+    (Ariadne.Tables.pluginOverrides.all fun kv => (splitComma kv.2).all Ariadne.Tables.pluginHooks.contains) = true := by
+  decide +kernel
+
+/-- the model of each bundled plugin returns its argument (and keeps its state) on every hook the
+    source class does not override -/
+theorem model_ignores_other_hooks_fwd (c : Call) (st : FwdState) (x : Payload)
+    (h : c.hook ∉ overridesOf "ClientForwardRefsPlugin") : fwdStep c st x = .ok (st, x) := by
+  rw [table_forwardrefs_overrides] at h
+  unfold fwdStep
+  split <;> simp_all [pure_eq_ok]
+
+theorem model_ignores_other_hooks_noreimports (c : Call) (x : Payload)
+    (h : c.hook ∉ overridesOf "NoReimportsPlugin") : noReimportsStep c x = x := by
+  rw [table_noreimports_overrides] at h
+  exact noReimports_other_hooks c x (by simpa using h)
+
+theorem model_ignores_other_hooks_extract (c : Call) (st : ExtractState) (x : Payload)
+    (h : c.hook ∉ overridesOf "ExtractOperationsPlugin") : extractStep c st x = .ok (st, x) := by
+  rw [table_extract_overrides] at h
+  unfold extractStep
+  split <;> simp_all [pure_eq_ok]
+
+theorem model_ignores_other_hooks_shorter (c : Call) (st : ShorterState) (x : Payload)
+    (h : c.hook ∉ overridesOf "ShorterResultsPlugin") : shorterStep c st x = .ok (st, x) := by
+  rw [table_shorter_overrides] at h
+  unfold shorterStep
+  split <;> simp_all [pure_eq_ok]
+
+/-! ## 9. The whole property on the pipeline model: false in general, proved outside the findings -/
+
+def PState.isFresh : PState → Bool
+  | .shorter s => s.classDict.isEmpty && s.extendedImports.isEmpty && s.importedTypes.isEmpty
+  | .extract s => s.gqls.isEmpty && s.vars.isEmpty && s.written.isNone
+  | .fwd s => s.inputAndReturnTypes.isEmpty && s.importedClasses.isEmpty && s.importedInMethod.isEmpty
+  | _ => true
+
+def PState.kind : PState → Nat
+  | .shorter _ => 0 | .extract _ => 1 | .fwd _ => 2 | .noReimports => 3 | .identity => 4
+
+def distinct : List Nat → Bool
+  | [] => true
+  | k :: ks => !ks.contains k && distinct ks
+
+/-- a configuration of the property's quantifier: an ordered subset of the five plugins, freshly constructed -/
+def configOK (ps : List PState) : Bool := ps.all PState.isFresh && distinct (ps.map PState.kind)
+
+/-- black refuses a module with an `if` without body -/
+def formatOkB (m : Module) : Bool := m.body.all (fun t => match t with | .ifStmt _ [] _ => false | _ => true)
+
+def runWith (ps : List PState) (x : Input) : PipeState × Option Err := runPipeline { plugins := ps } x.events
+
+/-- "the package is generated and loads" on the model -/
+def loadsB (ps : List PState) (x : Input) : Bool :=
+  let r := runWith ps x
+  r.2.isNone &&
+  (match r.1.clientModule? with
+   | some m => formatOkB m && annScopedB m && wellScopedB { client := m, ops := r.1.opsFile? }
+   | none => false) &&
+  !trigOpsModuleClash { x with plugins := ps }          -- no generated module is overwritten
+
+def finalMethod (ps : List PState) (x : Input) (name : String) : Option Method :=
+  match (runWith ps x).1.clientModule? with
+  | some m => (m.firstClass?.map ClassDef.methods).getD [] |>.find? (fun md => md.name == name)
+  | none => none
+
+def finalShape (ps : List PState) (x : Input) (name : String) : Option Shape := (finalMethod ps x name).bind shapeOf
+
+/-- the projection the property prescribes for a method: the single top-level field when
+    ShorterResults is configured, nothing otherwise -/
+def expectedProj (ps : List PState) (x : Input) (m : Method) : List String :=
+  if ps.any PState.isShorter then
+    match singleFieldOf (shorterFacts (fragmentsModuleNameOf ps) x.events) m with
+    | some (f, _) => [f]
+    | none => []
+  else []
+
+def projOKB (ps : List PState) (x : Input) : Bool :=
+  (baseMethods x.events).all (fun m =>
+    match finalShape ps x m.name with
+    | some s => s.proj == expectedProj ps x m
+    | none => false)
+
+def pkgOf (ps : List PState) (x : Input) : Pkg :=
+  { client := ((runWith ps x).1.clientModule?).getD { body := [] }, ops := (runWith ps x).1.opsFile? }
+
+/-- same request, same acceptance, same value up to the prescribed projection — for every response -/
+def SameBehaviour (ps : List PState) (x : Input) : Prop :=
+  ∀ m ∈ baseMethods x.events, ∀ s0, finalShape [] x m.name = some s0 →
+    ∃ s, finalShape ps x m.name = some s ∧
+      request (pkgOf ps x) s = request (pkgOf [] x) s0 ∧
+      ∀ (PyV : Type) (validate : String × String → J → Except String PyV) (getattr : String → PyV → PyV) (d : J),
+        respond validate getattr (pkgOf ps x) s d =
+          (respond validate getattr (pkgOf [] x) s0 d).map (fun o => (expectedProj ps x m).foldl (fun o f => getattr f o) o)
+
+/-- a valid input: the unplugged generation succeeds, loads, and its methods have the generated shape -/
+def validB (x : Input) : Bool :=
+  configOK x.plugins && loadsB [] x && projOKB [] x
+
+/-- the property at full strength, for every valid input and every configuration -/
+def C15_full : Prop :=
+  ∀ x : Input, validB x = true → loadsB x.plugins x = true ∧ projOKB x.plugins x = true ∧ SameBehaviour x.plugins x
+
+/-! ### witnesses (the models of the replayed corpus entries corpus/C15/*.json) -/
+
+namespace W
+
+def shape (cls opName : String) (lines : List String) : Shape :=
+  { imports := [], op := .inline "query" lines, opName := opName, varsVar := "variables",
+    varsAnn := .sub (.name "Dict") (.tuple [.name "str", .name "object"]), variables := .other "Dict:{}" [],
+    kwargs := .name "kwargs", tail := .call true "response" "data", retClass := cls, proj := [] }
+
+def method (name cls opName : String) (lines : List String) : Method :=
+  { isAsync := true, name := name, args := [("self", none)], rest := .other "arguments:**kwargs: Any" ["Any"],
+    decorators := 0, returns := some (.name cls), body := bodyOf (shape cls opName lines) }
+
+def imp (level : Nat) (m : String) (ns : List String) : ImportFrom := { module := some m, names := ns.map (·, none), level := level }
+def ev (hook : String) (p : Payload) : Event := { call := { hook := hook, caller := some "ClientGenerator" }, payload := p }
+def evOp (hook op snake : String) (p : Payload) : Event :=
+  { call := { hook := hook, opName := some op, opKind := some "query", opSnake := some snake, caller := some "ClientGenerator" },
+    payload := p }
+
+def gqlFn : Method :=
+  { isAsync := false, name := "gql", args := [("q", some (.name "str"))], rest := .other "arguments:" [],
+    decorators := 0, returns := some (.name "str"), body := [.simple (.ret (some (.name "q")))] }
+
+def cls (name : String) (bases : List String) (fields : List (String × Ex)) : ClassDef :=
+  { name := name, bases := bases.map Ex.name, keywords := 0,
+    body := if fields.isEmpty then [.stmt (.other "Pass:pass" [])] else fields.map (fun f => .stmt (.annAssign (.name f.1) f.2 none)) }
+
+def resultModule (classes : List ClassDef) (extra : List ImportFrom) : Module :=
+  { body := [.simple (.importFrom (imp 0 "typing" ["Any", "List", "Optional"])), .simple (.importFrom (imp 1 "base_model" ["BaseModel"]))] ++
+      extra.map (fun i => Top.simple (.importFrom i)) ++ classes.map Top.classDef }
+
+/-- the hook calls of an unplugged generation with one operation -/
+def events (op snake clsName : String) (classes : List ClassDef) (extraImports : List ImportFrom) (lines : List String)
+    (fragments : List ClassDef) (extraMethods : List ClassItem) : List Event :=
+  [ ev "generate_client_import" (.imp (imp 0 "typing" ["Optional", "List", "Dict", "Any", "Union", "AsyncIterator"])),
+    ev "generate_client_import" (.imp (imp 1 "async_base_client" ["AsyncBaseClient"])),
+    ev "generate_client_import" (.imp (imp 1 "base_model" ["UNSET", "UnsetType"])) ] ++
+  classes.map (fun c => evOp "generate_result_class" op snake (.klass c)) ++
+  [ evOp "generate_result_types_module" op snake (.module (resultModule classes extraImports)),
+    evOp "generate_operation_str" op snake (.str (String.join lines)),
+    evOp "generate_client_method" op snake (.method (method snake clsName op lines)),
+    ev "generate_client_import" (.imp (imp 1 snake [clsName])) ] ++
+  fragments.map (fun c => ev "generate_result_class" (.klass c)) ++
+  (if fragments.isEmpty then [] else [ev "generate_fragments_module" (.module (resultModule fragments []))]) ++
+  [ ev "generate_gql_function" (.method gqlFn),
+    ev "generate_client_class" (.klass { name := "Client", bases := [.name "AsyncBaseClient"], keywords := 0,
+                                         body := .method (method snake clsName op lines) :: extraMethods }),
+    ev "generate_client_module" (.module { body := [] }) ]
+
+/-- C15-F7: `query C { count }`, plugins = [ShorterResults, ClientForwardRefs] -/
+def f7 : Input :=
+  { plugins := [.shorter {}, .fwd {}],
+    events := events "C" "c" "C" [cls "C" ["BaseModel"] [("count", .name "int")]] [] ["query C {\n", "  count\n", "}\n"] [] [] }
+
+/-- C15-F3: `query GetMe { me { id } }`, plugins = [ClientForwardRefs, ShorterResults] -/
+def f3 : Input :=
+  { plugins := [.fwd {}, .shorter {}],
+    events := events "GetMe" "get_me" "GetMe"
+      [cls "GetMeMe" ["BaseModel"] [("id", .name "str")],
+       cls "GetMe" ["BaseModel"] [("me", .sub (.name "Optional") (.name "\"GetMeMe\""))]] []
+      ["query GetMe {\n", "  me {\n", "    id\n", "  }\n", "}\n"] [] [] }
+
+/-- the same input with the plugins the other way round -/
+def f3swapped : Input := { f3 with plugins := [.shorter {}, .fwd {}] }
+
+/-- C15-F4: `query Q { ...QF }  fragment QF on Query { when }` (custom scalar), plugins = [ShorterResults] -/
+def f4 : Input :=
+  { plugins := [.shorter {}],
+    events := events "Q" "q" "Q" [cls "Q" ["QF"] []] [imp 1 "fragments" ["QF"]] ["query Q {\n", "  ...QF\n", "}\n"]
+      [cls "QF" ["BaseModel"] [("when", .sub (.name "Optional") (.name "datetime"))]] [] }
+
+/-- C15-F5: enable_custom_operations (the client class also has `execute_custom_operation`, which ends
+    in `return self.get_data(response)`), plugins = [ClientForwardRefs] -/
+def f5 : Input :=
+  { plugins := [.fwd {}], customOps := true,
+    events := events "GetMe" "get_me" "GetMe"
+      [cls "GetMeMe" ["BaseModel"] [("id", .name "str")],
+       cls "GetMe" ["BaseModel"] [("me", .sub (.name "Optional") (.name "\"GetMeMe\""))]] []
+      ["query GetMe {\n", "  me {\n", "    id\n", "  }\n", "}\n"] []
+      [.method { isAsync := true, name := "execute_custom_operation", args := [("self", none)],
+                 rest := .other "arguments:*fields" [], decorators := 0,
+                 returns := some (.sub (.name "Dict") (.tuple [.name "str", .name "Any"])),
+                 body := [.simple (.ret (some (.call (.attr (.name "self") "get_data") [.name "response"] [] [])))] }] }
+
+/-- C15-F6: an operation named `Operations`, plugins = [ExtractOperations] -/
+def f6 : Input :=
+  { plugins := [.extract {}],
+    events := events "Operations" "operations" "Operations" [cls "Operations" ["BaseModel"] [("count", .name "int")]] []
+      ["query Operations {\n", "  count\n", "}\n"] [] [] }
+
+end W
+
+/-- each witness is a valid input: the unplugged package is generated, loads, has the generated shape -/
+theorem witnesses_valid :
+    validB W.f7 = true ∧ validB W.f3 = true ∧ validB W.f3swapped = true ∧ validB W.f4 = true ∧ validB W.f5 = true ∧
+    validB W.f6 = true := by decide +kernel
+
+/-- C15-F7 on the model: an `if TYPE_CHECKING:` without body, the module cannot be formatted -/
+theorem finding_F7_on_model : loadsB W.f7.plugins W.f7 = false ∧ triggersOf W.f7 = ["fwdEmptyTypeChecking"] := by
+  decide +kernel
+
+/-- C15-F3 on the model: ForwardRefs first ⇒ no projection although `GetMe` has the single field `me`;
+    the other order projects and loads -/
+theorem finding_F3_on_model :
+    projOKB W.f3.plugins W.f3 = false ∧ loadsB W.f3.plugins W.f3 = true ∧ triggersOf W.f3 = ["fwdBeforeShorter"] ∧
+    projOKB W.f3swapped.plugins W.f3swapped = true ∧ loadsB W.f3swapped.plugins W.f3swapped = true ∧
+    triggersOf W.f3swapped = [] := by decide +kernel
+
+/-- C15-F4 on the model: the return annotation `Optional[datetime]` names a class the client module never imports -/
+theorem finding_F4_on_model : loadsB W.f4.plugins W.f4 = false ∧ triggersOf W.f4 = ["shorterUnimportedName"] := by
+  decide +kernel
+
+/-- C15-F5 on the model: KeyError inside the hook -/
+theorem finding_F5_on_model : (runWith W.f5.plugins W.f5).2 = some "KeyError" ∧ triggersOf W.f5 = ["fwdSelfCall"] := by
+  decide +kernel
+
+/-- C15-F6 on the model: the operations module and the result-types module of `Operations` are the same file -/
+theorem finding_F6_on_model : loadsB W.f6.plugins W.f6 = false ∧ triggersOf W.f6 = ["opsModuleClash"] := by
+  decide +kernel
+
+/-- The property as stated is false on the pinned tree. -/
+theorem C15_full_false : ¬ C15_full := by
+  intro h
+  have h7 := (h W.f7 witnesses_valid.1).1
+  rw [finding_F7_on_model.1] at h7
+  cases h7
+
+/-! ### what is proved of the whole-pipeline statement -/
+
+/-- one decidable trigger per open finding (Model/PluginFindings.lean; Python twins in harness/c15.py) -/
+def Supported_15 (x : Input) : Prop :=
+  ¬ (trigFwdBeforeShorter x = true ∨ trigShorterUnimportedName x = true ∨ trigFwdSelfCall x = true ∨
+     trigOpsModuleClash x = true ∨ trigFwdEmptyTypeChecking x = true)
+
+/-- the region in which the WHOLE-PIPELINE statement is proved so far: configurations made of the
+    identity plugin and NoReimports only.  Lists containing ShorterResults / ExtractOperations /
+    ClientForwardRefs are covered, for every list and every order, by the per-plugin theorems of
+    §1–§8 (method level), and at pipeline level by correspondence and oracle only
+    (evidence: "unproved region"). -/
+def Proved_15 (x : Input) : Prop :=
+  ∀ p ∈ x.plugins, p = PState.identity ∨ p = PState.noReimports
+
+
+theorem inert_run (ps : List PState) (x : Input) (h : Inert ps) :
+    (runWith ps x).2 = (runWith [] x).2 ∧ (runWith ps x).1.clientModule? = (runWith [] x).1.clientModule? ∧
+    (runWith ps x).1.opsFile? = none ∧ (runWith [] x).1.opsFile? = none := by
+  have hrel : InertRel { plugins := ps } { plugins := [] } :=
+    ⟨h, rfl, rfl, rfl, rfl, rfl, rfl, fun _ _ => rfl⟩
+  obtain ⟨herr, hin, hnil, _, _, _, _, _, hf⟩ := runPipeline_inert x.events _ _ hrel
+  refine ⟨herr, ?_, inert_opsFile _ hin, inert_opsFile _ (by show Inert (runPipeline { plugins := [] } x.events).1.plugins; rw [hnil]; intro p hp; cases hp)⟩
+  unfold PipeState.clientModule?
+  rw [show (runWith ps x).1.finalOf "generate_client_module" = (runWith [] x).1.finalOf "generate_client_module" from
+    hf "generate_client_module" (by decide)]
+
+/-- The whole-pipeline statement on `Supported_15 ∩ Proved_15` (see `Proved_15` for what is outside). -/
+theorem C15_partial (x : Input) (hv : validB x = true) (hs : Supported_15 x) (hp : Proved_15 x) :
+    loadsB x.plugins x = true ∧ projOKB x.plugins x = true ∧ SameBehaviour x.plugins x := by
+  have hin : Inert x.plugins := hp
+  obtain ⟨h1, h2, h3, h4⟩ := inert_run x.plugins x hin
+  obtain ⟨k1, k2, k3⟩ := inert_no_kind x.plugins hin
+  simp only [validB, Bool.and_eq_true] at hv
+  obtain ⟨⟨_, hl⟩, hproj⟩ := hv
+  have hclash : trigOpsModuleClash { x with plugins := x.plugins } = trigOpsModuleClash { x with plugins := [] } := by
+    unfold trigOpsModuleClash
+    simp only [List.any_nil]
+    rw [List.any_eq_false]
+    intro p hp'
+    rcases hin p hp' with rfl | rfl <;> simp
+  have hfm : ∀ n, finalMethod x.plugins x n = finalMethod [] x n := by intro n; unfold finalMethod; rw [h2]
+  have hfs : ∀ n, finalShape x.plugins x n = finalShape [] x n := by intro n; unfold finalShape; rw [hfm]
+  have hexp : ∀ m, expectedProj x.plugins x m = expectedProj [] x m := by
+    intro m; unfold expectedProj; simp [k1]
+  have hpkg : pkgOf x.plugins x = pkgOf [] x := by unfold pkgOf; rw [h2, h3, h4]
+  refine ⟨?_, ?_, ?_⟩
+  · unfold loadsB at hl ⊢
+    simp only [h1, h2, h3, hclash]
+    simp only [h4] at hl
+    exact hl
+  · unfold projOKB at hproj ⊢
+    simp only [hfs, hexp]
+    exact hproj
+  · intro m hm s0 hs0
+    refine ⟨s0, by rw [hfs]; exact hs0, by rw [hpkg], ?_⟩
+    intro PyV validate getattr d
+    rw [hpkg, hexp]
+    have : expectedProj [] x m = [] := by unfold expectedProj; simp
+    rw [this]
+    simp only [List.foldl_nil]
+    exact (outcome_map_id _).symm
+
+/-- non-vacuity of `C15_partial`: a valid, supported input with `[identity, NoReimports]` -/
+example : validB { W.f3 with plugins := [.identity, .noReimports] } = true ∧
+    Supported_15 { W.f3 with plugins := [.identity, .noReimports] } ∧
+    Proved_15 { W.f3 with plugins := [.identity, .noReimports] } := by
+  refine ⟨by decide +kernel, ?_, ?_⟩
+  · unfold Supported_15; decide +kernel
+  · intro p hp; simp at hp; rcases hp with rfl | rfl <;> simp
+
+/-- non-vacuity of the shape hypotheses of §3–§5: the witness method has the generated shape, its result class
+    `GetMe` has the single field `me`, and ShorterResults projects it -/
+example : (W.method "get_me" "GetMe" "GetMe" ["query\n"]).body = bodyOf (W.shape "GetMe" "GetMe" ["query\n"]) := rfl
+
+example : (singleFieldOf (shorterFacts "fragments" W.f3.events) (W.method "get_me" "GetMe" "GetMe" [])).map (·.1) = some "me" := by
+  decide +kernel
+
+/-- a single field inherited from a fragment class counts (`Q(QF)` with `QF.when`) -/
+example : (singleFieldOf (shorterFacts "fragments" W.f4.events) (W.method "q" "Q" "Q" [])).map (·.1) = some "when" := by
+  decide +kernel
 
 end Ariadne.C15
